@@ -38,7 +38,7 @@ man = {
                  "kind_free_text": "contract-based deductive verifier for a Python subset: re-parses the real function ASTs under /repo on every run, generates per-path verification conditions from sidecar contracts (pre/post, raises-iff, loop invariants and variants, frames), discharges them with z3 (cvc5 on unknown); bounded stand-ins = the same contracts evaluated at run time on the real functions under /venv/bin/python"}],
     "checks": checks,
     "not_applicable": na,
-    "notes": "exit codes of ./check: 0 held, 1 VIOLATION (+replay file), 2 undecided (no VIOLATION line), 3 checker error. Known findings: /verif/known_findings.json.",
+    "notes": "exit codes of ./check: 0 held (UNDECIDED / NOT-PROVED lines, if any, mean the deductive layer left items open on that tree while every bounded stand-in held; the evidence counts them as undischarged; VERIF_STRICT=1 makes that exit 2), 1 VIOLATION (+replay file), 3 checker error. Known findings: /verif/known_findings.json.",
 }
 with open(os.path.join(os.path.dirname(os.path.abspath(__file__)), "MANIFEST.json"), "w") as f:
     json.dump(man, f, indent=1)
